@@ -30,6 +30,10 @@ func runC18Continual(c *core.Ctx) {
 	interval := []time.Duration{100 * time.Millisecond, 500 * time.Millisecond}[t.Choose(2, "interval")]
 	v6 := t.Bias(1, 3, "udp6")
 	filter := t.Bias(1, 3, "ipfilter")
+	// host candidates disabled (server-reflexive only, and no STUN URL to ask): nothing is ever published,
+	// whatever addresses appear
+	noHost := t.Bias(1, 5, "no-host-type")
+	c.Knob("noHost", noHost)
 	c.Knob("part", "continual")
 	c.Knob("interval", interval.String())
 	c.Knob("udp6", v6)
@@ -42,7 +46,11 @@ func runC18Continual(c *core.Ctx) {
 		nts = append(nts, ice.NetworkTypeUDP6)
 	}
 	refused := func(a netip.Addr) bool { return filter && a.Is4() && a.As4()[3]%2 == 1 }
-	opts := []ice.AgentOption{ice.WithNetworkTypes(nts), ice.WithCandidateTypes([]ice.CandidateType{ice.CandidateTypeHost}),
+	ctypes := []ice.CandidateType{ice.CandidateTypeHost}
+	if noHost {
+		ctypes = []ice.CandidateType{ice.CandidateTypeServerReflexive}
+	}
+	opts := []ice.AgentOption{ice.WithNetworkTypes(nts), ice.WithCandidateTypes(ctypes),
 		ice.WithContinualGatheringPolicy(ice.GatherContinually), ice.WithNetworkMonitorInterval(interval)}
 	if filter {
 		opts = append(opts, ice.WithIPFilter(func(ip net.IP) bool {
@@ -63,7 +71,7 @@ func runC18Continual(c *core.Ctx) {
 	})
 
 	eligible := func(a netip.Addr, up bool) bool {
-		if !up || refused(a) {
+		if !up || refused(a) || noHost {
 			return false
 		}
 		if a.Is6() {
@@ -100,7 +108,7 @@ func runC18Continual(c *core.Ctx) {
 				return false
 			}
 			ap := rig.CandAP(cand)
-			if cand.Type() != ice.CandidateTypeHost || !cand.NetworkType().IsUDP() {
+			if cand.Type() != ice.CandidateTypeHost || !cand.NetworkType().IsUDP() || noHost {
 				c.Failf("C18/candidate-type-not-enabled", "%s: %s %s %s published, only udp host candidates are enabled", where, cand.NetworkType(), cand.Type(), ap)
 				return false
 			}
